@@ -80,7 +80,9 @@ def run_cproc(src, d, target, name='u'):
     cf = os.path.join(d, name + '.il.c')
     _write(cf, c)
     exe = os.path.join(d, name + '.cproc.exe')
-    ok, diag = ilexec.cc([cf], exe)
+    # il2c's output has no block scopes of its own (every alloc is a function-level object), so the use-after-scope
+    # instrumentation would only guard il2c's helper temporaries; leaving it out saves 40% of the build time
+    ok, diag = ilexec.cc([cf], exe, extra=['-fno-sanitize-address-use-after-scope'])
     if not ok:
         return Stream('il2c-output-rejected', diag=diag[-600:])
     st, out, err = run_exe(exe)
@@ -193,7 +195,7 @@ def replay_cmd(target, cs):
     ref = ' '.join(REF_FLAGS + ([] if cs else ['-funsigned-char']))
     return ('$CPROC_QBE -t %s input.c > input.qbe || { echo "cproc failed: $?"; exit 1; }\n'
             'python3 %s -e main=main -o input.il.c input.qbe || exit 1\n'
-            'gcc -O0 -w -fno-builtin -fsanitize=address -o cproc.exe input.il.c -lm || exit 1\n'
+            'gcc -O0 -w -fno-builtin -fsanitize=address -fno-sanitize-address-use-after-scope -o cproc.exe input.il.c -lm || exit 1\n'
             'gcc %s -o ref.exe input.c -lm || exit 2\n'
             'ASAN_OPTIONS=detect_leaks=0 ./cproc.exe > got.txt; echo "status $?" >> got.txt\n'
             'ASAN_OPTIONS=detect_leaks=0 ./ref.exe > want.txt; echo "status $?" >> want.txt\n'
@@ -405,8 +407,9 @@ def main(chk):
         add('S2', list(G.s2_specs()), 110)
         add('S2', list(G.s2_specs(True)), 110, uns)
     if chk.want('S3'):
-        add('S3', list(G.s3_specs()), 110)
-        add('S3', list(G.s3_specs(True)), 110, uns)
+        fills = (0, 5) if quick else G.BFFILL
+        add('S3', [sp for sp in G.s3_specs() if sp[3] in fills], 110)
+        add('S3', [sp for sp in G.s3_specs(True) if sp[3] in fills], 110, uns)
     if chk.want('S4'):
         trees = []
         maxn = 3 if quick else 5
